@@ -131,3 +131,12 @@ func c16CheckedIndex(p *Prog) *RuleResult {
 	r.Floor(2)
 	return r
 }
+
+// C16/R6: graph traversals mark before they descend (engine: cyclecut.go E-CUT2)
+func c16MarkBeforeRecurse(p *Prog) *RuleResult {
+	r := NewRule("C16/R6 mark-before-recurse", "every recursive traversal that is guarded by a visited set stores the current node into the set before any call that can lead back into the traversal")
+	n := checkMarkBeforeRecurse(p, r, map[string]bool{"linker": true, "bundler": true, "graph": true, "js_parser": true, "css_parser": true, "resolver": true, "js_ast": true, "renamer": true, "pkg/api": true, "cache": true, "fs": true})
+	r.Anchor("recursive traversals guarded by a visited map", n >= 3)
+	r.Floor(5)
+	return r
+}
